@@ -537,10 +537,8 @@ class Gen:
             for (ci, co, cv, tag) in self.cb_mistakes(full, outs, var):
                 self.add(f'{h} apply {lst(ci)} {lst(co)} {int(bool(cv))}', 'fm:' + tag)
             self.add(f'{h} apply {lst(ins)} {lst(outs)} {int(var)}', 'fm:cb-count-in')       # the method value's own type: receiver missing
-            for tok in ('int', 'nil', 's16', 'bool'):
+            for tok in ('int', 'nil', 's16', 'bool', 'pi', 'sl', 'map', 'str'):      # patch.go:139 refuses every non-function
                 self.add(f'{h} applyval {tok}', 'cb-nonfunc')
-            for tok in ('pi', 'sl', 'map', 'str'):
-                self.add(f'{h} applyval {tok}', 'fm:cb-nonfunc')
             for (vals, tag) in self.ret_cases(outs):
                 self.add(f'{h} return {lst(vals)}', tag)
             for (args, tag) in self.when_cases(ins, var):
